@@ -694,7 +694,7 @@ class P_cif(StructureParser):
         for a in stru:
             cnt = element_count[a.element] = element_count.get(a.element, 0) + 1
             a_site_label.append("%s%i" % (a.element, cnt))
-            if numpy.all(a.U == a.U[0, 0] * numpy.identity(3)):
+            if not stru.lattice.isanisotropic(a.U):
                 a_adp_type.append("Uiso")
             else:
                 a_adp_type.append("Uani")
